@@ -1184,6 +1184,10 @@ func removeExtension(tbsData []byte, oid asn1.ObjectIdentifier) ([]byte, error) 
 		return nil, errors.New("no extension of specified type present")
 	}
 	tbs.Extensions = append(tbs.Extensions[:extAt], tbs.Extensions[extAt+1:]...)
+	if len(tbs.Extensions) == 0 {
+		// Extensions is SIZE (1..MAX): with nothing left the field is absent.
+		tbs.Extensions = nil
+	}
 	// Clear out the asn1.RawContent so the re-marshal operation sees the
 	// updated structure (rather than just copying the out-of-date DER data).
 	tbs.Raw = nil
@@ -1281,6 +1285,9 @@ func BuildPrecertTBS(tbsData []byte, preIssuer *Certificate) ([]byte, error) {
 				tbs.Extensions[keyAt].Value = issuerKeyID
 			} else {
 				tbs.Extensions = append(tbs.Extensions[:keyAt], tbs.Extensions[keyAt+1:]...)
+				if len(tbs.Extensions) == 0 {
+					tbs.Extensions = nil
+				}
 			}
 		} else if issuerKeyID != nil {
 			// PreCert did not have an auth-key-id, but the preIssuer does, so add it at the end.
